@@ -208,6 +208,19 @@ def run_case(case, ctx):
         ctx.count("schema_validations")
     except jsonschema.ValidationError as ex:
         viols.append(("json-form-fails-schema", f"{ex.message[:200]} json={json.dumps(jd)[:300]}"))
+    if _N[0] % 7 == 0:
+        # the JSON form is the form of the event AS IT IS NOW: serialise, edit the data in place (what annotating transforms
+        # do), serialise again
+        e3 = Event(**json.loads(json.dumps(jd)))           # (an event of its own: the checks below still look at e)
+        first = e3.to_json_str()
+        e3.data["$edited"] = [1]
+        for v in list(e3.data.values()):
+            if isinstance(v, list):
+                v.append("x")
+        second = json.loads(e3.to_json_str())
+        if canon(second.get("data")) != canon(e3.data) or canon(e3.to_json_dict().get("data")) != canon(e3.data):
+            viols.append(("json-form-is-not-the-events-current-state", f"after an in-place edit: event data={canon(e3.data)[:200]} to_json_str data={canon(second.get('data'))[:200]} (first={first[:120]})"))
+        ctx.count("serialised_again_after_an_in_place_edit")
     for label, src in (("from-json-dict", jd), ("from-json-str", json.loads(e.to_json_str())), ("from-event", e)):
         try:
             r = Event(**src)
